@@ -339,6 +339,26 @@ pub fn run(cfg: &Cfg) -> Report {
             check(&Case { frames: frames.clone(), cuts }, &mut rep, &mut states);
         }
     }
+    // (4) long pipelined bursts: 17..120 mostly small frames, so that counters, thresholds or
+    // batching logic keyed on "many messages buffered at once" are reached
+    let mut rng = cfg.rng(3);
+    for i in 0..cfg.n(300, 30_000) {
+        let n = rng.range(17, if i % 4 == 0 { 120 } else { 48 });
+        let frames: Vec<Frame> = (0..n).map(|_| gen_frame(&mut rng, None)).collect();
+        let stream = stream_of(&frames);
+        let mut parts = vec![vec![], nul_positions(&stream).iter().map(|p| p + 1).filter(|c| *c < stream.len()).collect::<Vec<_>>()];
+        for cs in [255usize, 256, 257, 1000, 4096] {
+            if cs < stream.len() {
+                parts.push((1..).map(|k| k * cs).take_while(|c| *c < stream.len()).collect());
+            }
+        }
+        parts.push(random_cuts(&mut rng, stream.len()));
+        for cuts in parts {
+            check(&Case { frames: frames.clone(), cuts }, &mut rep, &mut states);
+            rep.count("long_burst_cases");
+        }
+        rep.max("max_frames_in_one_burst", n as u64);
+    }
     finish(&mut rep, &states);
     rep
 }
